@@ -37,6 +37,16 @@ MUTANTS = {
                                                        "        self.mapfile_transformer = self.transformer_class(\n            include_position=self.include_position or getattr(MapfileToDict, '_seen_pos', False),"),
                                                       ("mappyfile/transformer.py", "    def transform(self, tree):\n        tree = Canonize().transform(tree)\n", "    def transform(self, tree):\n        tree = Canonize().transform(tree)\n        MapfileToDict._seen_pos = getattr(MapfileToDict, '_seen_pos', False) or self.include_position\n")]),
     ],
+    "C15": [
+        ("resolve_relative_to_including_file", [(PA, "include_text, fn=fn, _nested_includes=_nested_includes + 1", "include_text, fn=inc_file_path, _nested_includes=_nested_includes + 1")]),
+        ("max_depth_6", [(PA, "if _nested_includes == 5:", "if _nested_includes == 6:")]),
+        ("max_depth_4", [(PA, "if _nested_includes == 5:", "if _nested_includes == 4:")]),
+        ("missing_include_swallowed", [(PA, "                    raise ex\n", "                    continue\n")]),
+        ("cwd_used_although_file_name_known", [(PA, "                        os.path.join(os.path.dirname(fn), inc_file_path)", "                        os.path.join(os.getcwd(), inc_file_path)")]),
+        ("splice_lines_shifts_later_includes", [(PA, "            lines.pop(idx)  # remove the original include\n            lines.insert(idx, txt)", "            lines[idx:idx + 1] = txt.split(\"\\n\")")]),
+        ("load_ignores_stream_name", [(PA, "        if hasattr(fp, \"name\"):", "        if False and hasattr(fp, \"name\"):")]),
+        ("include_keyword_case_sensitive", [(PA, "if l.strip().lower().startswith(\"include\"):", "if l.strip().upper().startswith(\"INCLUDE\") and l.strip()[:7] in (\"INCLUDE\", \"include\"):")]),
+    ],
     "C17": [
         ("pop_without_key_folding", [(OD, "return super().pop(self.__class__._k(key), *args, **kwargs)", "return super().pop(key, *args, **kwargs)")]),
         # (setdefault without folding is an equivalent mutant: C OrderedDict.setdefault goes through the overridden __contains__/__getitem__/__setitem__)
